@@ -155,6 +155,36 @@ def CheckFiles(dataReference):
     return True
 
 
+def _archive_member_escapes(member, target, location):
+    # type: (tarfile.TarInfo, str, str) -> bool
+    '''Returns True if extracting member could create or modify something outside target
+
+    Parameters:
+        member - A tarfile.TarInfo object
+        target - The real path of the directory the archive is extracted into, ending with a path separator
+        location - The directory the archive is extracted into, as it is handed to extractall()
+
+    A member is confined if
+    - its name lies under target (textually) and the part below target has no parent-directory component
+    - in case it is a symbolic or hard link: the link target is a relative path without parent-directory
+      components, i.e. it points to the directory holding the link (the archive root for a hard link) or below it.
+      Links like that cannot be used by a later member to leave the destination.'''
+
+    newPath = os.path.join(location, member.name)
+    #if target includes / then commonprefix will include it
+    if os.path.commonprefix([target, newPath]) != target:
+        return True
+
+    if os.pardir in newPath[len(target):].split(os.sep):
+        return True
+
+    if member.issym() or member.islnk():
+        if os.path.isabs(member.linkname) or os.pardir in member.linkname.split(os.sep):
+            return True
+
+    return False
+
+
 def StageReference(dataReference,  # type: experiment.model.graph.DataReference
                    location,  # type: experiment.model.storage.WorkingDirectory
                    graph,  # type: experiment.model.graph.WorkflowGraph
@@ -226,9 +256,7 @@ def StageReference(dataReference,  # type: experiment.model.graph.DataReference
                 #(due to charactwise matching performed)
                 target = os.path.join(os.path.realpath(dest), '')
                 for f in tar.getmembers():
-                    newPath = os.path.join(location.path, f.name)
-                    #if target includes / then commonprefix will include it
-                    if os.path.commonprefix([target, newPath]) != target:
+                    if _archive_member_escapes(f, target, location.path):
                         raise tarfile.ReadError('Archive contains files that would be extracted outside of destination')
 
                 tar.extractall(dest)
